@@ -11,9 +11,18 @@ import (
 	"github.com/WuKongIM/WuKongIM/pkg/backup"
 )
 
-// str renders a Go string as a [bytes] term: (sx "...") for plain printable ASCII,
+// Per-case string table: a string of 20 bytes or more (digests, keys, format names) is printed
+// once, in a table bound by a let around the case term, and referred to as (sv T k).
+var (
+	strIndex map[string]int
+	strTable []string
+)
+
+func resetStrings() { strIndex, strTable = map[string]int{}, nil }
+
+// lit renders a Go string as a [bytes] literal: (sx "...") for plain printable ASCII,
 // (hx "...") otherwise.
-func str(s string) string {
+func lit(s string) string {
 	if s == "" {
 		return "[]"
 	}
@@ -23,6 +32,52 @@ func str(s string) string {
 		}
 	}
 	return `(sx "` + s + `")`
+}
+
+// str renders a Go string as a [bytes] term.
+func str(s string) string {
+	if len(s) < 20 || strIndex == nil {
+		return lit(s)
+	}
+	k, ok := strIndex[s]
+	if !ok {
+		k = len(strTable)
+		strIndex[s] = k
+		strTable = append(strTable, s)
+	}
+	return "(sv T " + vh.N(uint64(k)) + ")"
+}
+
+// withStrings wraps a case term in the let that binds its string table.
+func withStrings(term string) string {
+	items := make([]string, len(strTable))
+	for i, s := range strTable {
+		items[i] = lit(s)
+	}
+	return "(let T := " + vh.List(items) + " in " + term + ")"
+}
+
+// jsonb renders a JSON document: when it is plain printable ASCII without an apostrophe, as
+// (jx "...") with every double quote written as an apostrophe (half the size of hex).
+func jsonb(b []byte) string {
+	const piece = 3000
+	for _, c := range b {
+		if c < 0x20 || c > 0x7e || c == '\'' {
+			return hexb(b)
+		}
+	}
+	if len(b) == 0 {
+		return "[]"
+	}
+	t := strings.ReplaceAll(string(b), `"`, "'")
+	if len(t) <= piece {
+		return `(jx "` + t + `")`
+	}
+	var parts []string
+	for i := 0; i < len(t); i += piece {
+		parts = append(parts, `"`+t[i:min(i+piece, len(t))]+`"%string`)
+	}
+	return "(jxs [" + strings.Join(parts, "; ") + "])"
 }
 
 // hexb renders a byte string like vh.Hex, in pieces of at most 1500 bytes (hxs) when long.
